@@ -461,10 +461,11 @@ theorem iterChunked_decode (buf : Nat) (max : Option Nat) (ls le trailer : Bytes
 /-! ### totality -/
 
 /-- whatever the bytes, the schedule and the buffer: the decoder's only errors are
-`BodyParsingError` and `BodySizeError` -/
+`BodyParsingError` and (with a size limit configured) `BodySizeError` -/
 theorem iterChunked_err (buf : Nat) (max : Option Nat) :
     ∀ (n : Nat) (r : Rec) (sk : Sink) (e : Err), r.st.data.length = n →
-      (iterChunked buf max r sk).1 = .error e → e = .bodyParsingError ∨ e = .bodySizeError := by
+      (iterChunked buf max r sk).1 = .error e →
+        e = .bodyParsingError ∨ (e = .bodySizeError ∧ max ≠ none) := by
   intro n
   induction n using Nat.strongRecOn with
   | _ n ih =>
@@ -514,5 +515,242 @@ theorem iterChunked_err (buf : Nat) (max : Option Nat) :
               exact Or.inl he.symm
             · have hle2 := readTail_data_le r2
               exact ih _ (by omega) (readTail r2).2 sk2 e rfl he
+
+/-! ### what can go wrong after a size line -/
+
+theorem iterChunked_scan_err (buf : Nat) (max : Option Nat) (r : Rec) (sk : Sink) (e : Err)
+    (h : (scanLine buf r 0 false false []).1 = .error e) : (iterChunked buf max r sk).1 = .error e := by
+  rw [iterChunked_eq]
+  rcases hs : scanLine buf r 0 false false [] with ⟨res, r1⟩
+  rw [hs] at h
+  simp only at h
+  subst h
+  rfl
+
+/-- a legal size line that, with its CRLF, is longer than the buffer is a parsing error -/
+theorem scanLine_long (buf : Nat) (sp ext rest : Bytes) (r : Rec) (h : LegalLine sp ext)
+    (hd : r.st.data = sp ++ ext ++ CRLF ++ rest) (hk : sp.length + ext.length + 2 > buf) :
+    (scanLine buf r 0 false false []).1 = .error .bodyParsingError := by
+  have hd' : r.st.data = (sp ++ ext ++ [CR]) ++ (LF :: rest) := by rw [hd]; simp [CRLF, CR, LF]
+  have hlen : (sp ++ ext ++ [CR]).length = sp.length + ext.length + 1 := by simp; omega
+  by_cases h1 : 0 + (sp ++ ext ++ [CR]).length > buf
+  · exact scanLine_overflow buf _ r 0 false false [] _ hd' (h.noTerm sp ext false) h1
+  · obtain ⟨r1, he, hd1, -⟩ := scanLine_run buf _ r 0 false false [] _ hd' (h.noTerm sp ext false) (by omega)
+    rw [he, scanLine_cons _ _ _ _ _ _ LF rest hd1, if_pos (by omega)]
+
+/-- a stream that ends inside a size line (before its LF) is a parsing error -/
+theorem scanLine_cut (buf : Nat) (sp ext rest : Bytes) (r : Rec) (i : Nat) (h : LegalLine sp ext)
+    (hd : r.st.data = (sp ++ ext ++ CRLF ++ rest).take i) (hi : i < sp.length + ext.length + 2) :
+    (scanLine buf r 0 false false []).1 = .error .bodyParsingError := by
+  have hd' : r.st.data = (sp ++ ext ++ [CR]).take i := by
+    rw [hd]
+    have : sp ++ ext ++ CRLF ++ rest = (sp ++ ext ++ [CR]) ++ (LF :: rest) := by simp [CRLF, CR, LF]
+    rw [this, List.take_append_of_le_length (by simp; omega)]
+  exact scanLine_eof buf _ r 0 false false [] hd' (NoTerm_prefix _ _ _ (h.noTerm sp ext false))
+
+/-- After a legal size line announcing `n > 0` bytes, with arbitrary bytes `t` behind it: what
+the decoder does, for every read fragmentation.  `t` need not hold a legal chunk. -/
+theorem line_step (buf : Nat) (max : Option Nat) (sp ext t : Bytes) (n : Nat) (r : Rec) (sk : Sink)
+    (hl : LegalLine sp ext) (hsz : pyIntHex sp = some (n : Int)) (hn : 0 < n)
+    (hfit : sp.length + ext.length + 2 ≤ buf)
+    (hd : r.st.data = sp ++ ext ++ CRLF ++ t) (hinv : SinkInv buf sk) :
+    -- the bytes on offer exceed the size limit: BodySizeError, at most one buffer too far
+    (∀ m, max = some m → sk.size ≤ m → sk.size + min n t.length > m →
+      (iterChunked buf max r sk).1 = .error .bodySizeError ∧
+      (iterChunked buf max r sk).2.pos ≤ r.pos + (sp.length + ext.length + 2) + (m - sk.size) + buf) ∧
+    -- the stream ends inside the chunk data
+    (overMax max (sk.size + min n t.length) = false → t.length < n →
+      (iterChunked buf max r sk).1 = .error .bodyParsingError) ∧
+    -- the chunk data is not followed by CRLF
+    (overMax max (sk.size + min n t.length) = false → n ≤ t.length → (t.drop n).take 2 ≠ CRLF →
+      (iterChunked buf max r sk).1 = .error .bodyParsingError) ∧
+    -- the chunk is complete: its data goes to the accumulator, decoding continues behind the CRLF
+    (overMax max (sk.size + min n t.length) = false → n ≤ t.length → (t.drop n).take 2 = CRLF →
+      ∃ r3, iterChunked buf max r sk = iterChunked buf max r3 (sk.extend buf (t.take n)) ∧
+        r3.st.data = t.drop (n + 2) ∧ r3.pos = r.pos + (sp.length + ext.length + 2) + n + 2) := by
+  have hb : 0 < buf := by omega
+  obtain ⟨r1, hs, hdata1, hpos1⟩ := scanLine_legal buf _ _ _ r hl hd hfit
+  have hunf : iterChunked buf max r sk =
+      match readParts true buf max n r1 sk with
+      | (.error e, r2) => (.error e, r2)
+      | (.ok sk2, r2) =>
+        if (readTail r2).1 ≠ CRLF then (.error .bodyParsingError, (readTail r2).2)
+        else iterChunked buf max (readTail r2).2 sk2 := by
+    rw [iterChunked_eq buf max r sk, hs]
+    simp only [hsz]
+    rw [if_neg (by omega)]
+    simp only [Int.toNat_natCast]
+  refine ⟨?_, ?_, ?_, ?_⟩
+  · intro m hm hsk hov
+    subst hm
+    obtain ⟨h1, h2⟩ := readParts_over true buf m hb n r1 sk hsk (by rw [hdata1]; exact hov)
+    rw [hunf]
+    rcases hrp : readParts true buf (some m) n r1 sk with ⟨res, r2⟩
+    rw [hrp] at h1 h2
+    simp only at h1 h2
+    subst h1
+    exact ⟨rfl, by simp only; omega⟩
+  · intro hov hshort
+    obtain ⟨-, -, h3⟩ := readParts_within true buf max hb n r1 sk hinv (by rw [hdata1]; exact hov)
+    rw [hdata1, if_pos ⟨hshort, rfl⟩] at h3
+    rw [hunf]
+    rcases hrp : readParts true buf max n r1 sk with ⟨res, r2⟩
+    rw [hrp] at h3
+    simp only at h3
+    subst h3
+    rfl
+  · intro hov hlen hbad
+    obtain ⟨h1, -, h3⟩ := readParts_within true buf max hb n r1 sk hinv (by rw [hdata1]; exact hov)
+    rw [hdata1, if_neg (by omega), Nat.min_eq_left hlen] at h3
+    rw [hdata1, Nat.min_eq_left hlen] at h1
+    rw [hunf]
+    rcases hrp : readParts true buf max n r1 sk with ⟨res, r2⟩
+    rw [hrp] at h1 h3
+    simp only at h1 h3
+    subst h3
+    obtain ⟨ht1, -, -⟩ := readTail_spec r2
+    rw [h1] at ht1
+    simp only
+    rw [if_pos (by rw [ht1]; exact hbad)]
+  · intro hov hlen hgood
+    obtain ⟨h1, h2, h3⟩ := readParts_within true buf max hb n r1 sk hinv (by rw [hdata1]; exact hov)
+    rw [hdata1, if_neg (by omega), Nat.min_eq_left hlen] at h3
+    rw [hdata1, Nat.min_eq_left hlen] at h1 h2
+    rcases hrp : readParts true buf max n r1 sk with ⟨res, r2⟩
+    rw [hrp] at h1 h2 h3
+    simp only at h1 h2 h3
+    subst h3
+    obtain ⟨ht1, ht2, ht3⟩ := readTail_spec r2
+    rw [h1] at ht1 ht2 ht3
+    refine ⟨(readTail r2).2, ?_, by rw [ht2, List.drop_drop], ?_⟩
+    · rw [hunf, hrp]
+      simp only
+      rw [if_neg (by rw [ht1]; simp [hgood])]
+    · have : 2 ≤ (t.drop n).length := by
+        have := congrArg List.length hgood
+        simp [CRLF, List.length_take] at this
+        simp only [List.length_drop]
+        omega
+      rw [ht3, h2, hpos1, Nat.min_eq_left this]
+
+/-! ### runs of complete chunks, truncation -/
+
+def encodeChunks (cs : List Chunk) : Bytes := (cs.map encodeChunk).flatten
+
+theorem encodeChunked_eq (cs : List Chunk) (ls le trailer : Bytes) :
+    encodeChunked cs ls le trailer = encodeChunks cs ++ (ls ++ le ++ CRLF ++ trailer) := rfl
+
+theorem encodeChunks_cons (c : Chunk) (cs : List Chunk) :
+    encodeChunks (c :: cs) = encodeChunk c ++ encodeChunks cs := by simp [encodeChunks]
+
+theorem payloadOf_cons (c : Chunk) (cs : List Chunk) : payloadOf (c :: cs) = c.payload ++ payloadOf cs := by
+  simp [payloadOf]
+
+/-- complete legal chunks that fit the buffer and the size limit are consumed one after the
+other; decoding continues behind them with their payloads accumulated -/
+theorem chunks_skip (buf : Nat) (max : Option Nat) : ∀ (pre : List Chunk) (rest : Bytes) (r : Rec) (sk : Sink),
+    (∀ c ∈ pre, LegalChunk c ∧ c.spelling.length + c.ext.length + 2 ≤ buf) →
+    r.st.data = encodeChunks pre ++ rest → SinkInv buf sk →
+    overMax max (sk.size + (payloadOf pre).length) = false →
+    ∃ r', iterChunked buf max r sk = iterChunked buf max r' (sk.extend buf (payloadOf pre)) ∧
+      r'.st.data = rest ∧ r'.pos = r.pos + (encodeChunks pre).length := by
+  intro pre
+  induction pre with
+  | nil =>
+    intro rest r sk _ hd hinv _
+    exact ⟨r, by simp [payloadOf, Sink.extend_nil buf sk hinv], by simpa [encodeChunks] using hd, by simp [encodeChunks]⟩
+  | cons c cs ih =>
+    intro rest r sk hall hd hinv hmax
+    have hc := hall c (by simp)
+    rw [payloadOf_cons, List.length_append] at hmax
+    rw [encodeChunks_cons, List.append_assoc] at hd
+    obtain ⟨r3, he, hd3, hp3⟩ := chunk_step buf max c _ r sk hc.1 hc.2 hd hinv
+      (overMax_mono max _ _ (by omega) hmax)
+    obtain ⟨r', he', hd4, hp4⟩ := ih rest r3 (sk.extend buf c.payload) (fun x hx => hall x (by simp [hx])) hd3
+      (Sink.extend_inv buf sk _ hinv)
+      (by simp only [Sink.extend]; rw [Nat.add_assoc]; exact hmax)
+    refine ⟨r', ?_, hd4, ?_⟩
+    · rw [he, he', Sink.extend_extend, payloadOf_cons]
+    · rw [hp4, hp3, encodeChunks_cons, List.length_append]; omega
+
+/-- **every truncation is rejected**: a stream that ends anywhere before the LF of the
+terminating zero-size line of a legal encoding makes the decoder raise (for every buffer size,
+size limit and read fragmentation). -/
+theorem iterChunked_prefix (buf : Nat) (max : Option Nat) (ls le trailer : Bytes) (hl : LegalLine ls le) :
+    ∀ (chunks : List Chunk) (r : Rec) (sk : Sink) (i : Nat),
+      (∀ c ∈ chunks, LegalChunk c) →
+      r.st.data = (encodeChunked chunks ls le trailer).take i →
+      i < (encodeChunks chunks).length + ls.length + le.length + 2 →
+      SinkInv buf sk → overMax max sk.size = false →
+      ∃ e, (iterChunked buf max r sk).1 = .error e := by
+  intro chunks
+  induction chunks with
+  | nil =>
+    intro r sk i _ hd hi _ _
+    simp only [encodeChunks, List.map_nil, List.flatten_nil, List.length_nil, Nat.zero_add] at hi
+    rw [encodeChunked_eq] at hd
+    simp only [encodeChunks, List.map_nil, List.flatten_nil, List.nil_append] at hd
+    exact ⟨_, iterChunked_scan_err buf max r sk _ (scanLine_cut buf ls le trailer r i hl hd hi)⟩
+  | cons c cs ih =>
+    intro r sk i hall hd hi hinv hm
+    have hc := hall c (by simp)
+    have hplen : 0 < c.payload.length := List.length_pos_iff.mpr hc.nonempty
+    rw [encodeChunked_eq, encodeChunks_cons, List.append_assoc] at hd
+    rw [encodeChunks_cons, List.length_append, encodeChunk_length] at hi
+    -- the size line of `c`
+    have hsplit : encodeChunk c ++ (encodeChunks cs ++ (ls ++ le ++ CRLF ++ trailer)) =
+        c.spelling ++ c.ext ++ CRLF ++ (c.payload ++ CRLF ++ (encodeChunks cs ++ (ls ++ le ++ CRLF ++ trailer))) := by
+      simp [encodeChunk]
+    by_cases h1 : i < c.spelling.length + c.ext.length + 2
+    · rw [hsplit] at hd
+      exact ⟨_, iterChunked_scan_err buf max r sk _ (scanLine_cut buf _ _ _ r i hc.line hd h1)⟩
+    · -- the line is complete
+      have hd2 : r.st.data = c.spelling ++ c.ext ++ CRLF ++
+          (c.payload ++ CRLF ++ (encodeChunks cs ++ (ls ++ le ++ CRLF ++ trailer))).take
+            (i - (c.spelling.length + c.ext.length + 2)) := by
+        have hL : (c.spelling ++ c.ext ++ CRLF).length = c.spelling.length + c.ext.length + 2 := by
+          simp [CRLF]; omega
+        rw [hd, hsplit, List.take_append, List.take_of_length_le (by omega), hL]
+      by_cases hfit : c.spelling.length + c.ext.length + 2 ≤ buf
+      · obtain ⟨s1, s2, s3, s4⟩ := line_step buf max c.spelling c.ext _ c.payload.length r sk hc.line hc.size hplen
+          hfit hd2 hinv
+        generalize ht : (c.payload ++ CRLF ++ (encodeChunks cs ++ (ls ++ le ++ CRLF ++ trailer))).take
+            (i - (c.spelling.length + c.ext.length + 2)) = t at s1 s2 s3 s4 hd2
+        have htl : t.length = min (i - (c.spelling.length + c.ext.length + 2))
+            (c.payload.length + 2 + (encodeChunks cs ++ (ls ++ le ++ CRLF ++ trailer)).length) := by
+          rw [← ht, List.length_take]; simp [CRLF]; omega
+        by_cases hov : overMax max (sk.size + min c.payload.length t.length) = false
+        · by_cases hshort : t.length < c.payload.length
+          · exact ⟨_, s2 hov hshort⟩
+          · by_cases hcr : (t.drop c.payload.length).take 2 = CRLF
+            · obtain ⟨r3, he, hd3, -⟩ := s4 hov (by omega) hcr
+              -- the chunk is complete: the cut lies further on
+              have hi2 : c.payload.length + 2 ≤ i - (c.spelling.length + c.ext.length + 2) := by
+                have := congrArg List.length hcr
+                simp [CRLF, List.length_take, List.length_drop] at this
+                omega
+              have hd4 : r3.st.data = (encodeChunked cs ls le trailer).take
+                  (i - (c.spelling.length + c.ext.length + 2 + c.payload.length + 2)) := by
+                rw [hd3, ← ht, encodeChunked_eq, List.drop_take]
+                have : c.payload ++ CRLF ++ (encodeChunks cs ++ (ls ++ le ++ CRLF ++ trailer)) =
+                    (c.payload ++ CRLF) ++ (encodeChunks cs ++ (ls ++ le ++ CRLF ++ trailer)) := by simp
+                rw [this, List.drop_left' (by simp [CRLF])]
+                congr 1; omega
+              have hminp : min c.payload.length t.length = c.payload.length := by omega
+              rw [hminp] at hov
+              obtain ⟨e, hee⟩ := ih r3 (sk.extend buf (t.take c.payload.length)) _
+                (fun x hx => hall x (by simp [hx])) hd4 (by omega)
+                (Sink.extend_inv buf sk _ hinv)
+                (by simp only [Sink.extend, List.length_take]; rw [hminp]; exact hov)
+              exact ⟨e, by rw [he]; exact hee⟩
+            · exact ⟨_, s3 hov (by omega) hcr⟩
+        · simp only [Bool.not_eq_false] at hov
+          cases max with
+          | none => simp [overMax] at hov
+          | some m =>
+            simp only [overMax, decide_eq_true_eq, decide_eq_false_iff_not] at hov hm
+            exact ⟨_, (s1 m rfl (by omega) hov).1⟩
+      · exact ⟨_, iterChunked_scan_err buf max r sk _
+          (scanLine_long buf _ _ _ r hc.line hd2 (by omega))⟩
 
 end Ombott.Chunked
